@@ -27,6 +27,8 @@ func runMonitors(cfg CheckConfig, res *hx.Result, traces []*Trace) error {
 		return monitorC12(cfg, res, traces)
 	case "C09":
 		return monitorC09(cfg, res, traces)
+	case "C11":
+		return monitorC11(cfg, res, traces)
 	}
 	return nil
 }
